@@ -241,7 +241,11 @@ impl GraphInline {
                 }
             }
             GraphInline::Image(url, _, inlines) => {
-                format!("![{}]({})", inlines_to_markdown(inlines, options), url)
+                format!(
+                    "![{}]({})",
+                    inlines_to_markdown(inlines, options),
+                    link_destination(url)
+                )
             }
             GraphInline::RawInline(_, content) => format!("`{}`", content),
             GraphInline::Math(math) => format!("${}$", math),
